@@ -18,6 +18,7 @@ namespace
 constexpr int kMaxT = vsched::kMaxT;
 constexpr size_t kCap = dbgroup::thread::kMaxThreadNum;
 constexpr size_t kNone = static_cast<size_t>(-1);
+constexpr int kMaxId = 160;  // ghost tables indexed by thread ID (capacities up to this value)
 
 struct HB {
   int thread;
@@ -38,8 +39,8 @@ struct Ghost {
   bool fwd_blocked_reported = false;
   uint64_t seen_version[kMaxT] = {};
   bool starve_reported = false;
-  int last_owner[64];
-  std::vector<HB> hb_by_id[64];
+  int last_owner[kMaxId];
+  std::vector<HB> hb_by_id[kMaxId];
   std::vector<std::weak_ptr<size_t>> own_hb[kMaxT];
   // epoch guards
   bool pin_possible[kMaxT] = {};
@@ -77,6 +78,9 @@ struct Worker {
   EpochGuard guard{};
   EpochGuard parked{};  // a named, always-empty guard that outlives the operations (GUARD_END 2 assigns from it)
   bool has_guard = false;
+  EpochGuard guard2{};  // overlapping second guard of the same thread (the library gives no protection guarantee while two
+                        // guards of one thread overlap - no pin is claimed for them - but both must stop pinning when destroyed)
+  bool has_guard2 = false;
   const std::vector<size_t> *list = nullptr;
   std::vector<size_t> snap;
   uint64_t fwd_at_getprot = 0;
@@ -122,6 +126,7 @@ struct Worker {
       g.id[me] = id;
       g.table_version++;
       X->out.ids_issued++;
+      if (static_cast<int>(id) > X->out.max_id) X->out.max_id = static_cast<int>(id);
       const size_t start = X->c->threads[me].probe % kCap;
       if (id <= start) X->out.probe_wrapped = true;
     }
@@ -191,7 +196,16 @@ struct Worker {
       new (&guard) EpochGuard{};
     }
     has_guard = false;
-    g.pin_possible[me] = false;
+    if (!has_guard2) g.pin_possible[me] = false;
+  }
+
+  void
+  end_guard2()
+  {
+    if (!has_guard2) return;
+    guard2 = EpochGuard{};
+    has_guard2 = false;
+    if (!has_guard) X->g.pin_possible[me] = false;
   }
 
   void
@@ -270,7 +284,7 @@ struct Worker {
         auto w = IDManager::GetHeartBeat();
         if (w.expired()) {
           report("HB-LIVE", "GetHeartBeat returned an expired heartbeat to a running thread");
-        } else if (g.id[me] != kNone && g.id[me] < 64) {
+        } else if (g.id[me] != kNone && g.id[me] < static_cast<size_t>(kMaxId)) {
           g.hb_by_id[g.id[me]].push_back(HB{me, w});
           g.own_hb[me].push_back(w);
         }
@@ -284,7 +298,10 @@ struct Worker {
       case SPIN:
         for (uint32_t k = 0; k < op.a && k < 64; k++) vsched::harness_point();
         break;
-      case YIELD: vsched::harness_yield(); break;
+      case YIELD:
+        // a = 0/1: one yield; larger: a long-lived thread in user code (waiters get that many turns)
+        for (uint32_t k = 0; k < (op.a == 0 ? 1U : op.a) && k < 400; k++) vsched::harness_yield();
+        break;
       case GUARD_NEW: {
         if (mgr == nullptr || has_guard) {
           X->out.skipped++;
@@ -326,7 +343,7 @@ struct Worker {
       }
       case GUARD_REFRESH: {
         // the refresh idiom: assign a newly created guard over the live one (the thread still has one guard afterwards)
-        if (mgr == nullptr || !has_guard) {
+        if (mgr == nullptr || !has_guard || has_guard2) {
           X->out.skipped++;
           break;
         }
@@ -380,6 +397,25 @@ struct Worker {
         break;
       }
       case GUARD_END: end_guard(static_cast<int>(op.a % 3U)); break;
+      case GUARD2_NEW: {
+        if (mgr == nullptr || !has_guard || has_guard2) {
+          X->out.skipped++;
+          break;
+        }
+        // from here on this thread's guards overlap: nothing is claimed about what they pin (alive stays false until a
+        // single guard is created or refreshed again); the list handed out with the first guard is no longer watched
+        g.alive[me] = false;
+        if (list != nullptr) {
+          if (*list != snap) report("LIST-STABLE", "the list handed out with the guard (epoch " + s(g.epoch[me]) + ") changed while the guard was alive");
+          list = nullptr;
+        }
+        g.pin_events++;
+        guard2 = mgr->CreateEpochGuard();
+        has_guard2 = true;
+        X->out.overlapping_guards = true;
+        break;
+      }
+      case GUARD2_END: end_guard2(); break;
       case CHECK_LIST:
         if (has_guard && list != nullptr) {
           if (*list != snap) report("LIST-STABLE", "the list handed out with the guard (epoch " + s(g.epoch[me]) + ") changed while the guard was alive");
@@ -479,6 +515,7 @@ struct Worker {
       vsched::harness_point();
       exec(op);
     }
+    end_guard2();
     end_guard(1);
   }
 };
